@@ -27,6 +27,8 @@ type SpecEnv struct {
 	pos    token.Pos
 	errs   *[]string
 	noQuant bool
+	localFirst bool            // identifiers resolve to current local variables before parameters
+	shadow     map[string]bool // names bound by quantifiers (take precedence over locals)
 	fn     *ssa.Function
 	depth  int
 }
@@ -151,6 +153,11 @@ func (e *SpecEnv) eval(ex ast.Expr) Value {
 			return Scalar{T: False, Ty: tyBool}
 		case "nil":
 			return UConst{constant.MakeInt64(0)}
+		}
+		if e.localFirst && !e.shadow[n.Name] && e.st != nil {
+			if v, ok := e.st.Vars[n.Name]; ok {
+				return v
+			}
 		}
 		if v, ok := e.vars[n.Name]; ok {
 			return v
@@ -323,6 +330,8 @@ func (e *SpecEnv) deref(p Value) Value {
 	case LocV:
 		elem := pv.Ty.Underlying().(*types.Pointer).Elem()
 		switch pv.Kind {
+		case "box":
+			return x.loadFieldQuiet(st, "Cell", typeName(elem), elem, pv.Obj)
 		case "field":
 			return x.loadFieldQuiet(st, pv.Outer, fieldPathName(pv.ST, pv.Path), elem, pv.Obj)
 		case "elem":
@@ -357,16 +366,34 @@ func (e *SpecEnv) deref(p Value) Value {
 
 // loadFieldQuiet reads a field without generating names/assumptions (for specs).
 func (x *Exec) loadFieldQuiet(st *State, owner, fname string, ty types.Type, obj *Term) Value {
-	return fromComps(ty, func(suffix string, s *Sort) *Term {
-		h := x.heap(st, owner+"."+fname+suffix, Arr(IntS, s))
-		return Select(h, obj)
+	v := fromComps(ty, func(suffix string, s *Sort) *Term {
+		return x.objGet(st, owner+"."+fname+suffix, s, obj)
 	})
+	x.quietTypeInv(v)
+	return v
+}
+
+// quietTypeInv assumes the (state-independent) type invariants of a value read in a contract expression.
+func (x *Exec) quietTypeInv(v Value) {
+	if sl, ok := v.(SliceV); ok {
+		k := sl.Len.String()
+		if sl.Cap != nil {
+			k += "|" + sl.Cap.String()
+		}
+		if x.quietInv == nil {
+			x.quietInv = map[string]bool{}
+		}
+		if x.quietInv[k] {
+			return
+		}
+		x.quietInv[k] = true
+		x.assumeTypeInv(v, True, nil)
+	}
 }
 
 func (x *Exec) loadElemQuiet(st *State, elem types.Type, arr, idx *Term) Value {
 	return fromComps(elem, func(suffix string, s *Sort) *Term {
-		h := x.heap(st, elemKey(elem)+suffix, Arr(IntS, Arr(bv64, s)))
-		return Select(Select(h, arr), idx)
+		return Select(x.objGet(st, elemKey(elem)+suffix, Arr(bv64, s), arr), idx)
 	})
 }
 
@@ -738,6 +765,16 @@ func (e *SpecEnv) evalCall(n *ast.CallExpr) Value {
 		if e.old != nil {
 			sub.st = e.old
 		}
+		sub.localFirst = false
+		return sub.eval(n.Args[0])
+	case "prev":
+		// value of an expression at the previous section cut (or at entry)
+		sub := *e
+		if e.st != nil && e.st.PrevCut != nil {
+			sub.st = e.st.PrevCut
+		} else if e.old != nil {
+			sub.st = e.old
+		}
 		return sub.eval(n.Args[0])
 	case "implies":
 		anteEnv := *e
@@ -776,8 +813,9 @@ func (e *SpecEnv) evalCall(n *ast.CallExpr) Value {
 			return UnknownV{}
 		}
 		k := x.VC.Fresh("k", bv64)
-		h := x.heap(e.st, elemKey(tyByte), Arr(IntS, Arr(bv64, BV(8))))
-		body := Implies(BVCmp("bvult", k, a.Len), Eq(Select(Select(h, a.Arr), BVBin("bvadd", a.Off, k)), Select(Select(h, b.Arr), BVBin("bvadd", b.Off, k))))
+		ia := x.objGet(e.st, elemKey(tyByte), Arr(bv64, BV(8)), a.Arr)
+		ib := x.objGet(e.st, elemKey(tyByte), Arr(bv64, BV(8)), b.Arr)
+		body := Implies(BVCmp("bvult", k, a.Len), Eq(Select(ia, BVBin("bvadd", a.Off, k)), Select(ib, BVBin("bvadd", b.Off, k))))
 		return Scalar{T: And(Eq(a.Len, b.Len), e.quantTerm([]*Term{k}, body, true)), Ty: tyBool}
 	case "fresh":
 		// fresh(x): x was allocated during this activation (ref >= entry watermark)
@@ -805,6 +843,11 @@ func (e *SpecEnv) evalCall(n *ast.CallExpr) Value {
 			return Scalar{T: Eq(v.Arr, IntLit(0)), Ty: tyBool}
 		case ClosureV:
 			return Scalar{T: Eq(v.Ref, IntLit(0)), Ty: tyBool}
+		case LocV:
+			if v.Obj != nil {
+				return Scalar{T: Eq(v.Obj, IntLit(0)), Ty: tyBool}
+			}
+			return Scalar{T: False, Ty: tyBool}
 		}
 	case "has":
 		// has(m, k): key present in map
@@ -883,6 +926,7 @@ func (e *SpecEnv) evalCall(n *ast.CallExpr) Value {
 		}
 		sub := e.clone()
 		sub.depth = e.depth + 1
+		sub.localFirst = false
 		for i, p := range pf.Params {
 			v := argv(i)
 			if u, ok := v.(UConst); ok {
@@ -966,6 +1010,10 @@ func (e *SpecEnv) quant(n *ast.CallExpr, universal bool) Value {
 		var parts []*Term
 		for k := l; k < h; k++ {
 			sub := e.clone()
+			sub.shadow = map[string]bool{id.Name: true}
+			for kk := range e.shadow {
+				sub.shadow[kk] = true
+			}
 			sub.vars[id.Name] = UConst{constant.MakeInt64(k)}
 			parts = append(parts, sub.EvalBool(n.Args[3]))
 		}
@@ -982,6 +1030,10 @@ func (e *SpecEnv) quant(n *ast.CallExpr, universal bool) Value {
 	}
 	v := x.VC.Fresh(id.Name, ls.T.S)
 	sub := e.clone()
+	sub.shadow = map[string]bool{id.Name: true}
+	for k := range e.shadow {
+		sub.shadow[k] = true
+	}
 	ty := ls.Ty
 	if ty == nil {
 		ty = hs.Ty
@@ -1028,6 +1080,7 @@ func (e *SpecEnv) quantTerm(vars []*Term, body *Term, universal bool) *Term {
 	}
 	// assert mode
 	if asUniversal {
+		x.VC.Skolems = append(x.VC.Skolems, vars...)
 		return body // vars are fresh constants: proving body for arbitrary vars
 	}
 	e.errorf("existential quantifier in asserted position needs a witness (unsupported)")
